@@ -190,7 +190,7 @@ theorem readUserAreaOldG_witness :
 /-! ### totality -/
 
 theorem tableRangeG_spec (bs : Bytes) (m : Meter) (hl : bs.length < two63) :
-    SafeP (tableRangeG bs) m (fun p m' => p.1 < two64 ∧ p.2 < two64 ∧ m' = m) := by
+    SafeP (tableRangeG bs) m (fun p m' => p.1 < two64 ∧ p.2 < two64 ∧ m' = m ∧ p.2 ≤ p.1 + 268435440) := by
   unfold tableRangeG
   apply SafeP.cond
   · intro _; exact SafeP.err
@@ -238,7 +238,11 @@ theorem tableRangeG_spec (bs : Bytes) (m : Meter) (hl : bs.length < two63) :
           apply SafeP.cond
           · intro _; exact SafeP.err
           · intro _
-            exact SafeP.pure ⟨hst64, hmod _, rfl⟩
+            -- the table is as long as the 24-bit size field of its first entry says (in 16-byte units)
+            have h24 := fieldLE3_lt (List.take 16 (List.drop st bs)) 8
+            have hle1 := Nat.mod_le (st + fieldLE (List.take 16 (List.drop st bs)) 8 3 * 16 % two32) two64
+            have hle2 := Nat.mod_le (fieldLE (List.take 16 (List.drop st bs)) 8 3 * 16) two32
+            exact SafeP.pure ⟨hst64, hmod _, rfl, by simp only; omega⟩
 
 theorem parseTableG_spec (B N fuel : Nat) (r : Bytes) (acc : List Bytes) (m : Meter)
     (hfuel : r.length < fuel) (hr : r.length ≤ N) (hb : m.alloc + r.length ≤ B) :
@@ -325,7 +329,7 @@ theorem getEntriesG_spec (B : Nat) (bs : Bytes) (m : Meter) (hl : bs.length < tw
   simp only [getEntriesKSlope] at hB
   apply SafeP.bind
   apply SafeP.mono (tableRangeG_spec bs m hl)
-  intro p m1 ⟨h1, h2, hm⟩
+  intro p m1 ⟨h1, h2, hm, _⟩
   rw [hm]
   apply SafeP.bind
   apply SafeP.mono (sliceOrCopyG_spec _ bs p.1 p.2 m hl h1 h2)
